@@ -44,3 +44,7 @@ package memstore
 //@   after NewReader let opened = true
 //@   ensures[C05,C17] indom(store.Bag, key) ==> err == nil && r != nil && defined(opened)
 //@   ensures[C05,C17] !indom(store.Bag, key) ==> err != nil && r == nil
+
+//@ func (*Store).beInitialized()
+//@   inline
+//@ sweep[C17] assigns nothing: Store
